@@ -35,6 +35,14 @@ def main():
             print(*rows[-1], flush=True)
     finally:
         restore()
+    if not want:
+        res = [{"property": c, "id": i, "caught": t.startswith("CAUGHT"), "stale": t.startswith("STALE"), "line": t} for c, i, t in rows]
+        json.dump(res, open(os.path.join(HERE, "notes", "drill_results.json"), "w"), indent=1)
+        head = subprocess.run(["git", "-C", "/repo", "log", "--format=%h", "-1"], capture_output=True, text=True).stdout.strip()
+        with open(os.path.join(HERE, "notes", "drill_results.md"), "w") as fh:
+            fh.write(f"# Mutation drill (tools/drill.py) against /repo at {head}\n\nEach hand-made mutant of tools/mutants.json is applied to /repo's working tree, the named check's quick tier is run, and the tree is restored.\n\n| check | mutant | outcome |\n|---|---|---|\n")
+            for c, i, t in rows:
+                fh.write(f"| {c} | {i} | {t.replace('|', '/')[:260]} |\n")
     missed = [r for r in rows if not r[2].startswith("CAUGHT")]
     print(f"\n{len(rows) - len(missed)}/{len(rows)} mutants caught")
     for r in missed:
